@@ -552,7 +552,17 @@ def run(repo: Repo, chk: Check, thorough: bool = False) -> None:
                'a group opener is written in the BRANCH case' if opens else
                'the alternatives are written bare, joined with `|`: for `abc|ade` the parser yields `a` followed by BRANCH(bc, de), displayed as `abc|de`, which '
                'matches "de" and not "ade"', repo.loc(rt.mod, n))
-    chk.require('R15.10', 5)
+    # the dedicated rendering of `re.compile(...)` shows the arguments that bind_args() binds (pattern, flags).  A `**mapping` argument is not bound to
+    # anything and would vanish from the display: such a call has to be left to the generic call renderer
+    cre = repo.func(f'{COL}._colorize_ast_re')
+    nodep = cre.params()[1].arg
+    kwtest = [n for n in cre.walk() if isinstance(n, ast.If) and any(isinstance(x, ast.Attribute) and x.attr == 'arg' for x in ast.walk(n.test)) and
+              any(isinstance(x, ast.Attribute) and x.attr == 'keywords' for x in ast.walk(n.test)) and
+              any(isinstance(c, ast.Call) and call_name(c) == '_colorize_ast_call_generic' for st in n.body for c in ast.walk(st))]
+    chk.ob('R15.10', f'{COL}._colorize_ast_re :: a call with a ** argument is not rendered from the bound arguments', bool(kwtest),
+           'handed to the generic call renderer' if kwtest else
+           '`re.compile(r"[a-z]+", **OPTIONS)` is displayed as `re.compile(r"[a-z]+")`: the options disappear and nothing marks the value as incomplete', cre.loc)
+    chk.require('R15.10', 6)
 
     # ------------------------------------------------------------------ R15.9
     # `_set_precedence(P, child)` tells the parenthesis decision that `child` sits in a delimited position, so operators down to precedence P are
